@@ -77,6 +77,13 @@ CHECKS = {
         design_ref="DESIGN.md §4 C11",
         note="Tolerated: whitespace inside bare string statements (doc-strings to black) and the AnnAssign.simple flag black changes by dropping redundant parentheses.",
     ),
+    "C05": dict(
+        technique="runtime invariant at the cache hooks (every return of core.parse / core.compile_template is compared with a fresh parse / the first serialisation; caches audited after every call for attribution) + replay of requests after random call histories against one-shot fresh-interpreter references + every rule twice in a row",
+        category="exploration",
+        text="160 (900) random histories of 3-14 format_code / single-rule / sub / findall calls (35% on the request's own text, other options, other inputs) are each followed by a request whose result must equal, byte for byte, the result of the same request in a fresh interpreter; each of the 85 pipeline rules is called twice in a row on ~190 inputs (repository examples, construct zoo, fixed mutation-prone texts) and must return the same text both times and the same as a fresh process; during all of it ~9M cache returns per quick run are checked for fidelity and the parse cache is audited after each call so that a corruption is attributed to the call that caused it.",
+        design_ref="DESIGN.md §4 C05",
+        note="Fidelity = ast.dump(include_attributes=True) equality with a fresh ast.parse of the cache key; private attributes rules may attach to nodes are not part of a tree.",
+    ),
 }
 
 NOT_YET = {}
